@@ -39,12 +39,30 @@ class HarnessError(Exception):
     pass
 
 
-class _Timeout(Exception):
-    pass
+class _Timeout(KeyboardInterrupt):
+    """wall limit of one case; a KeyboardInterrupt subclass so that it is not swallowed as the
+    exception of whatever simulated task happens to be running"""
+
+
+_T0 = [float("inf")]
+TICK = 2.0
+
+
+def install_watchdog():
+    """Main process of a check (confirmation, minimisation and --replay run here, outside the
+    pool): the spin watchdog only, no per-case wall limit."""
+    signal.signal(signal.SIGALRM, _alarm)
+    signal.setitimer(signal.ITIMER_REAL, TICK, TICK)
 
 
 def _alarm(signum, frame):
-    raise _Timeout()
+    """Interval timer, every 5 wall-clock seconds while a case runs: the wall limit of the case,
+    and the spin watchdog of the simulated loop."""
+    if time.time() - _T0[0] > CASE_WALL_LIMIT:
+        raise _Timeout()
+    from simftp import core
+
+    core.spin_tick()
 
 
 def _quiet_unraisable(unraisable):
@@ -63,7 +81,8 @@ def _worker_init():
 
 def _call(args):
     fn, case = args
-    signal.alarm(CASE_WALL_LIMIT)
+    _T0[0] = time.time()
+    signal.setitimer(signal.ITIMER_REAL, TICK, TICK)
     try:
         return ("ok", case, fn(case))
     except _Timeout:
@@ -71,7 +90,21 @@ def _call(args):
     except BaseException as e:  # noqa
         return ("exc", case, "".join(traceback.format_exception(type(e), e, e.__traceback__)))
     finally:
-        signal.alarm(0)
+        signal.setitimer(signal.ITIMER_REAL, 0.0)
+        _T0[0] = float("inf")
+
+
+def spin_site(world):
+    """For a world whose run ended with outcome 'spin': (function, 'file:line') of the innermost
+    frame inside aioftp, or None when the spinning code is the harness' own."""
+    src = os.path.realpath(os.environ.get("AIOFTP_SRC", "/repo/src"))
+    hit = None
+    for fn, ln, name in getattr(world, "spin_frames", ()):
+        if os.path.realpath(fn).startswith(src + os.sep):
+            # the outermost aioftp frame (the task's own coroutine) names the finding: where
+            # exactly inside the spin the watchdog interrupted it differs from run to run
+            hit = hit or (name, f"{os.path.relpath(os.path.realpath(fn), src)}:{ln}")
+    return hit
 
 
 class Pool:
